@@ -510,7 +510,11 @@ func (e *Exec) unop(f *frame, x *ssa.UnOp, h *Heap, g string) (*Heap, string) {
 		if _, isMap := x.Type().Underlying().(*types.Map); isMap && gu != nil {
 			out.Guard = gu
 		}
-		e.notPrivate(out)
+		// what is read from an object that existed before cannot be one of this function's still-private
+		// allocations; what is read back from a private object is whatever this function stored there
+		if !e.isPrivateRef(a.Ref) {
+			e.notPrivate(out)
+		}
 		if _, isSl := x.Type().Underlying().(*types.Slice); isSl && e.pure == 0 && out.A == nil {
 			e.wf(out)
 		} else if _, isNamed := x.Type().(*types.Named); isNamed && e.pure == 0 && e.specDepth == 0 {
